@@ -14,6 +14,7 @@ func genOpts(strict bool) refjs.GenOpts {
 	o := refjs.GenOpts{Strict: strict}
 	if noExclusions {
 		o.NamedFuncExprNonSimple = true
+		o.ParamDefaultNames = true
 		o.JumpOutOfFinally = false // (not patched in any tree)
 	}
 	return o
@@ -24,6 +25,7 @@ func init() {
 		refjs.Known.MulNegZero = false
 		refjs.Known.MappedArgsEval = false
 		refjs.Known.EvalVarFuncName = false
+		refjs.Known.ParamDefaultName = false
 		refjs.Known.ComputedKeyOverAccessor = false
 	}
 }
